@@ -6,11 +6,54 @@ import lib
 PROP = "C15"
 
 
+def judge_ssh(ck, ex, res):
+    units = [(u["method"], u["target"], u["body"]) for u in ex["reqs"]]
+    desc = "ssh exchange: %s, reply %s, %d client(s)" % (units, sum(ex["replies"]), ex["clients"])
+    rp = {"exchange": ex, "observed": res}
+    if res["decoy_connections"]:
+        ck.disagree("ssh-proxy/dialled-other-address", "%s: the decoy listener received %d connection(s)" % (desc, res["decoy_connections"]), rp)
+        return
+    accepted = any(u["method"] == "auth-ok" for u in ex["reqs"])
+    runs = any(u["method"] in ("shell", "exec") for u in ex["reqs"])
+    for ci in range(len(res["sent"])):
+        sent, back, client, replied = res["sent"][ci] or [], res["backend"][ci] or [], res["client"][ci] or [], res["replied"][ci] or []
+        for what, sig in (("password", "credentials"), ("request", "channel-requests"), ("data", "channel-data")):
+            a = [x for x in sent if x.get("method") == what]
+            b = [x for x in back if x.get("method") == what]
+            if a != b:
+                ck.disagree("ssh-proxy/%s-differ" % sig, "%s: client %d sent %s, the backend received %s (%s)" % (
+                    desc, ci, json.dumps(a)[:300], json.dumps(b)[:300], res.get("notes")), rp)
+                return
+        auth = next((x["target"] for x in client if x.get("method") == "auth"), None)
+        if auth != ("accepted" if accepted else "rejected"):
+            ck.disagree("ssh-proxy/authentication-outcome", "%s: client %d: the backend %s the last password, the client saw %s (%s)" % (
+                desc, ci, "accepts" if accepted else "rejects", auth, res.get("notes")), rp)
+            return
+        if accepted and runs:
+            got = [x for x in client if x.get("method") == "data"]
+            if got != replied:
+                ck.disagree("ssh-proxy/reply-changed-or-missing", "%s: client %d: backend wrote %s, client read %s (%s)" % (
+                    desc, ci, json.dumps(replied)[:200], json.dumps(got)[:200], res.get("notes")), rp)
+                return
+            if not any(x.get("method") == "request" and x.get("target", "").startswith("exit-status") for x in client):
+                ck.notes.append("MODEL-DRIFT ssh: the backend's exit-status did not reach client %d in %s" % (ci, desc[:120]))
+    # every credential pair and every channel request is recorded in an event attributed to the client
+    evs = res.get("events") or []
+    npw = sum(1 for c in res["sent"] for x in (c or []) if x.get("method") == "password")
+    nrq = sum(1 for c in res["sent"] for x in (c or []) if x.get("method") == "request")
+    have_pw = sum(1 for e in evs if e.get("type") == "password-authentication")
+    have_rq = sum(1 for e in evs if e.get("type") == "ssh-request")
+    if have_pw < npw or have_rq < nrq:
+        ck.disagree("ssh-proxy/request-not-recorded", "%s: %d credential pairs / %d channel requests relayed, %d / %d events" % (desc, npw, nrq, have_pw, have_rq), rp)
+
+
 def judge(ck, ex, res):
     kind = ex["kind"]
+    if kind == "ssh":
+        return judge_ssh(ck, ex, res)
     desc = "%s exchange: %s, replies %s, %s, cut %d, %d client(s)" % (
         kind, [(r.get("method"), r.get("target"), r.get("headers"), r["body"], r.get("chunked")) for r in ex["reqs"]] if kind == "http" else [r["body"] for r in ex["reqs"]],
-        ex["replies"], "pipelined" if ex["pipelined"] else "lock-step", ex["cut"], ex["clients"])
+        ex["replies"], ("pipelined" if ex["pipelined"] else "lock-step") + (", client half-closes before reading" if ex.get("halfclose") else ""), ex["cut"], ex["clients"])
     rp = {"exchange": ex, "observed": res}
     if res["decoy_connections"]:
         ck.disagree("%s-proxy/dialled-other-address" % kind, "%s: the decoy listener received %d connection(s)" % (desc, res["decoy_connections"]), rp)
@@ -46,6 +89,13 @@ def run(tier, lab):
     r = lib.tlc("MC_Proxy", timeout=600, constants={"Devs": "{}", "NEx": str(nex)}, tlc_seed=lib.seed(), workers=8)
     lib.tlc_must_pass(r, "Proxy (BackendSawExactlyClientSent, ClientSawExactlyBackendSent, OnlyBackendDialled) on the drawn exchanges")
     ck.add_tlc(r, "Proxy: all interleavings of send/forward/reply/back for %d drawn exchanges" % nex)
+    rl = lib.tlc("MC_Proxy", cfg="MC_ProxyLive.cfg", timeout=300, constants={"Devs": "{}", "NEx": "40"}, tlc_seed=lib.seed(), workers=4, want_scn=False)
+    lib.tlc_must_pass(rl, "Proxy liveness (everything arrives under fairness, also after a half-close)")
+    ck.add_tlc(rl, "Proxy: liveness Arrives on 40 drawn exchanges")
+    rl2 = lib.tlc("MC_Proxy", cfg="MC_ProxyLive.cfg", timeout=300, constants={"Devs": '{"returns_on_first_eof"}', "NEx": "40"}, tlc_seed=lib.seed(),
+                  workers=4, want_scn=False)
+    if rl2.violated is None:
+        raise lib.Infra("deviation returns_on_first_eof does not violate Arrives in the model")
     for dev in ("adds_header", "does_nothing"):
         rd = lib.tlc("MC_Proxy", timeout=300, constants={"Devs": '{"%s"}' % dev, "NEx": "60"}, tlc_seed=lib.seed(), workers=4, want_scn=False)
         if dev == "adds_header" and rd.violated != "Inv":
@@ -61,11 +111,13 @@ def run(tier, lab):
         kinds[ex["kind"]] = kinds.get(ex["kind"], 0) + 1
     ck.cov.update({"traces_validated_against_impl": len(exs), "exchanges": len(exs), "by_kind": kinds, "evaluations": len(exs),
                    "distinct_nontrivial": len(exs),
-                   "rule": "exchange drawn by TLC (kind http/copy/dns; 1..3 requests with methods, targets, header sets incl. repeated names and "
+                   "rule": "exchange drawn by TLC (kind http/copy/dns/ssh; ssh: 0..2 rejected passwords, the accepted one or none, env/pty-req, shell or exec, "
+                           "channel data 0..64 KiB each way; copy: with and without the client half-closing before it reads; 1..3 requests with methods, targets, header sets incl. repeated names and "
                            "with/without User-Agent, bodies 0..64 KiB with content-length or chunked; reply sizes 0..64 KiB split at a cut point; "
                            "pipelined or lock-step; 1..3 concurrent clients); distinct by construction"})
     ck.sample(exs[0])
-    ck.assumptions += ["the ssh proxy leg is NOT covered by this check (no ssh backend fixture was built)",
+    ck.assumptions += ["ssh: the backend fixture is a golang.org/x/crypto/ssh server accepting exactly one password; one session channel per "
+                       "connection; the exit-status request racing the channel close is reported as drift only",
                        "content is compared at the level the property names: method, target, header multiset (Host, Content-Length and "
                        "Transfer-Encoding framing excluded), body; raw bytes for copy; datagram payloads for dns-proxy",
                        "real socket listener and forward directors on loopback; a decoy listener detects connections to other addresses"]
